@@ -46,9 +46,20 @@ for d in sorted(os.listdir(ROOT)):
     rows.append((d, props, meta.get("summary", ""), res))
     print(d, {k: v[:2] for k, v in res.items()}, flush=True)
 assert sh("git -C /repo status --porcelain").stdout.strip() == ""
+# merge with earlier rows (seeded/results.json holds one row per change; RESULTS.md is rendered from it)
+store = os.path.join(ROOT, "results.json")
+allrows = json.load(open(store)) if os.path.exists(store) else {}
+for d, props, summ, res in rows:
+    allrows[d] = {"props": props, "summary": summ, "results": res, "tier": tier}
+allrows = {k: v for k, v in allrows.items() if os.path.isdir(os.path.join(ROOT, k))}
+json.dump(allrows, open(store, "w"), indent=1, sort_keys=True)
 with open(os.path.join(ROOT, "RESULTS.md"), "w") as f:
-    f.write(f"# Seeded changes vs checks (tier: {tier})\n\nexit 1 + VIOLATION = caught; exit 0 = missed; exit 2 = machinery failure.\n\n| seeded change | breaks | summary | check results (exit, #violations, first message, s) |\n|---|---|---|---|\n")
-    for d, props, summ, res in rows:
-        cell = "<br>".join(f"{c}: exit {v[0]}, {v[1]} viol. {v[2]} ({v[3]} s)" for c, v in res.items())
-        f.write(f"| {d} | {', '.join(props)} | {summ[:200]} | {cell} |\n")
-print("wrote", os.path.join(ROOT, "RESULTS.md"))
+    f.write("# Seeded changes vs checks\n\nexit 1 + VIOLATION = caught; exit 0 = missed; exit 2 = machinery failure. Tier quick unless noted.\n\n| seeded change | breaks | summary | check results (exit, #violations, first message, s) |\n|---|---|---|---|\n")
+    def keyf(k):
+        a, b = k.split("-m")
+        return (a, int(b))
+    for d in sorted(allrows, key=keyf):
+        r = allrows[d]
+        cell = "<br>".join(f"{c}: exit {v[0]}, {v[1]} viol. {v[2]} ({v[3]} s)" + ("" if r.get("tier", "quick") == "quick" else f" [{r['tier']}]") for c, v in r["results"].items())
+        f.write(f"| {d} | {', '.join(r['props'])} | {r['summary'][:200].replace('|', '/')} | {cell} |\n")
+print("wrote", os.path.join(ROOT, "RESULTS.md"), len(allrows), "rows")
